@@ -71,7 +71,7 @@ theorem recordKey_npo {cfg : Cfg} (h : NoPathOpts cfg) (p : Path) (kvs : List (S
 
 theorem keyOf_npo {cfg : Cfg} (h : NoPathOpts cfg) (p : Path) (x : Val) :
     keyOf cfg p x = keyOf cfg [] x := by
-  cases x <;> simp only [keyOf]
+  cases x <;> simp only [keyOf, transformAt_npo h]
   rw [recordKey_npo h p]
 
 theorem keysOf_npo {cfg : Cfg} (h : NoPathOpts cfg) (p : Path) :
@@ -102,7 +102,7 @@ theorem keyedWalk_cons (cfg : Cfg) (p : Path) (sa oa : Val) (i : Nat) (x : Val) 
       match findKey k orr with
       | none => keyedWalk cfg p sa oa (i + 1) xs ks sr orr
       | some (j, y) =>
-        seqR (itemRes cfg p (p ++ [if i = j then PSeg.idx i else PSeg.idx2 i j]) (p ++ [.idx i]) sa oa x y)
+        seqR (itemRes cfg p (p ++ [if i = j then PSeg.idx i else PSeg.idx2 i j]) (p ++ [if i = j then PSeg.idx i else PSeg.idx2 i j]) sa oa x y)
           (keyedWalk cfg p sa oa (i + 1) xs ks (eraseKey k sr) (eraseKey k orr)) := by
   rw [keyedWalk]
   cases findKey k orr with
@@ -110,7 +110,7 @@ theorem keyedWalk_cons (cfg : Cfg) (p : Path) (sa oa : Val) (i : Nat) (x : Val) 
   | some jy =>
     obtain ⟨j, y⟩ := jy
     simp only [itemRes]
-    cases classifyItem cfg p (p ++ [if i = j then PSeg.idx i else PSeg.idx2 i j]) (p ++ [.idx i]) sa oa x y with
+    cases classifyItem cfg p (p ++ [if i = j then PSeg.idx i else PSeg.idx2 i j]) (p ++ [if i = j then PSeg.idx i else PSeg.idx2 i j]) sa oa x y with
     | emit r s => simp only [seqR]; rfl
     | descend => simp only [seqR]; rfl
 
@@ -318,9 +318,9 @@ theorem keyedWalk_pref (cfg : Cfg) (h : NoPathOpts cfg) (p p' : Path) (sa oa sa'
       obtain ⟨j, y⟩ := jy
       simp only [dE_seqR]
       rw [keyedWalk_pref cfg h p p' sa oa sa' oa' (i + 1) (i' + 1) xs ks (eraseKey k sr) (eraseKey k orr),
-        itemRes_pref h p (p ++ [if i = j then PSeg.idx i else PSeg.idx2 i j]) (p ++ [PSeg.idx i]) p'
+        itemRes_pref h p (p ++ [if i = j then PSeg.idx i else PSeg.idx2 i j]) (p ++ [if i = j then PSeg.idx i else PSeg.idx2 i j]) p'
           (p' ++ [if i' = j then PSeg.idx i' else PSeg.idx2 i' j])
-          (p' ++ [PSeg.idx i']) sa oa sa' oa' x y (sub_pref cfg h .item _ _ x y)]
+          (p' ++ [if i' = j then PSeg.idx i' else PSeg.idx2 i' j]) sa oa sa' oa' x y (sub_pref cfg h .item _ _ x y)]
 termination_by structural xs
 end
 
@@ -426,7 +426,8 @@ theorem mkEntries_keys_mem : ∀ (ks : List Str) (xs : List Val) (i : Nat), ∀ 
 
 /-- the result of the pair formed by the left element `x` at index `i` and its partner `jy` -/
 def pairRes (cfg : Cfg) (p : Path) (sa oa : Val) (i : Nat) (x : Val) (jy : Nat × Val) : Except PyErr Res :=
-  itemRes cfg p (p ++ [if i = jy.1 then PSeg.idx i else PSeg.idx2 i jy.1]) (p ++ [.idx i]) sa oa x jy.2
+  itemRes cfg p (p ++ [if i = jy.1 then PSeg.idx i else PSeg.idx2 i jy.1])
+    (p ++ [if i = jy.1 then PSeg.idx i else PSeg.idx2 i jy.1]) sa oa x jy.2
 
 /-- the results of the matched pairs, in the order of the left list; `orr` is the complete right list -/
 def matchedRes (cfg : Cfg) (p : Path) (sa oa : Val) (orr : List KE) : Nat → List Str → List Val → Except PyErr Res
@@ -557,7 +558,7 @@ def recKey (kvs : List (Str × Val)) : List Str → Str → Str
 /-- the composite key of a list element when `transform` is empty -/
 def keyP (cfg : Cfg) : Val → Str
   | .dict _ kvs => if cfg.ck.pats.isEmpty then [] else recKey kvs cfg.ck.pats []
-  | v => pyStr v
+  | v => jsonVal v
 
 theorem recordKey_pure {cfg : Cfg} (h : NoPathOpts cfg) (p : Path) (kvs : List (Str × Val)) :
     ∀ (fs : List Str) (acc : Str), recordKey cfg p kvs fs acc = .ok (recKey kvs fs acc)
@@ -570,7 +571,7 @@ theorem recordKey_pure {cfg : Cfg} (h : NoPathOpts cfg) (p : Path) (kvs : List (
 
 theorem keyOf_pure {cfg : Cfg} (h : NoPathOpts cfg) (p : Path) (x : Val) :
     keyOf cfg p x = .ok (keyP cfg x) := by
-  cases x <;> simp only [keyOf, keyP]
+  cases x <;> simp only [keyOf, keyP, transformAt_npo h, id]
   rw [recordKey_pure h p]
   split <;> rfl
 
